@@ -5,7 +5,8 @@ its property (and related ones) against that worktree through VERIF_REPO, remove
 import json, os, shutil, subprocess, sys
 
 SRCS = [("/tmp/seeded", 1), ("/tmp/seeded2", 2), ("/tmp/seeded3", 3)]
-DST = "/verif/seeded"
+VERIF = os.path.dirname(os.path.dirname(os.path.abspath(__file__)))
+DST = os.path.join(VERIF, "seeded")
 RELATED = {"C02": ["C14"], "C03": ["C02", "C14"], "C14": ["C02"], "C10": ["C09"], "C18": [], "C08": [], "C07": ["C08"], "C09": ["C14"], "C11": ["C12"], "C12": ["C13"], "C13": ["C12"]}
 STRENGTHENED = {
     "C03-dedup-swallows-ack": "missed at first; C03 gained forced message-ID collisions (stray ACK/RST and a peer request on the ID the CON is going to use)",
@@ -154,7 +155,7 @@ def matrix():
                 det["error"] = "patch does not apply: " + r.stderr.strip()[:200]
             else:
                 for cid in [pid] + RELATED.get(pid, []):
-                    c = subprocess.run(["/verif/check", cid, "--tier", "quick", "--no-evidence"], capture_output=True, text=True,
+                    c = subprocess.run([os.path.join(VERIF, "check"), cid, "--tier", "quick", "--no-evidence"], capture_output=True, text=True,
                                        env=dict(os.environ, VERIF_REPO=wt))
                     clauses = sorted({l.split("clause=")[1].split(" ")[0] for l in c.stdout.splitlines() if "clause=" in l})
                     det[cid] = {"exit": c.returncode, "clauses": clauses[:6]}
